@@ -3,6 +3,7 @@
 From Coq Require Import List ZArith NArith Bool Floats.SpecFloat.
 From AG Require Import Str F64 Value Json Expr Ops.
 From AG Require Generated.
+From AG Require Ckms.
 Import ListNotations.
 Open Scope string_scope.
 Open Scope list_scope.
@@ -104,10 +105,12 @@ Definition acc_emit (a : acc) : res value :=
   | AMax m mi _ => Ok (minmax_emit false m mi)
   | AAvg t n _ => Ok (if n =? 0 then VNone else from_float (fdiv t (f_of_Z n)))     (* no numeric value: None, not 0/0 *)
   | ADistinct seen _ => Ok (VInt (Z.of_nat (length seen)))
-  | APct [] _ _ => Ok VNone
   | APct vals p _ =>
-      (* the CKMS sketch is not modelled: hand the checker what the sketch saw *)
-      Ok (VObj [(lit "__pct_q", VFloat p); (lit "__pct_vals", VArr (map VFloat (rev vals)))])
+      (* percentile.rs [emit]: the CKMS sketch (Ckms.v) fed with the non-NaN values in arrival order *)
+      Ok (match Ckms.ckms_run Ckms.ckms_error_f (rev vals) p with
+          | Some (_, v) => from_float v
+          | None => VNone
+          end)
   end.
 
 (** ** MultiGrouper *)
